@@ -33,7 +33,7 @@ ASSUMPTIONS = ['seekable double keeps the whole byte string in its buffer like t
                'expected objects are the generator\'s own values (independent of pyasn1); for damaged streams the '
                'expectation is the outcome of decoding the complete bytes, two different library errors counting as '
                'the same ending (damaged streams are outside the property\'s quantifier)']
-KEY_FEATURES = ('double:seekable', 'double:raw', 'policy:short', 'policy:none', 'spec', 'nospec', 'damaged')
+KEY_FEATURES = ('double:seekable', 'double:raw', 'policy:short', 'policy:none', 'policy:none0', 'spec', 'nospec', 'damaged')
 
 DEC = {'BER': ber_decoder, 'CER': cer_decoder, 'DER': der_decoder}
 MAX_STEPS_FACTOR = 8
@@ -266,17 +266,17 @@ def run_stream(res, rng, T, spec, codec, data, exp_keys, exp_terminal, feats0, t
         res.see('partitions-enumerated', 1 << (n - 1))
         for chunks in S.partitions(n):
             for double in ('seekable', 'raw'):
-                for policy in ('short', 'none'):
+                for policy in ('short', 'none', 'none0'):
                     one(double, policy, chunks, (), rng.random() < 0.5, rng.random() < 0.3)
     else:
         res.see('streams-sampled')
         for _ in range(10 if tier == 'quick' else 16):
             chunks = S.random_partition(rng, n, cuts)
             polls = set(rng.sample(range(1, 2 * len(chunks) + 3), rng.choice([0, 0, 1, 2])))
-            one(rng.choice(['seekable', 'raw']), rng.choice(['short', 'none']), chunks, polls,
+            one(rng.choice(['seekable', 'raw']), rng.choice(['short', 'none', 'none0']), chunks, polls,
                 rng.random() < 0.5, rng.random() < 0.5)
         # single-octet arrival: every position is a cut
-        one(rng.choice(['seekable', 'raw']), rng.choice(['short', 'none']), [1] * n, (), True, True)
+        one(rng.choice(['seekable', 'raw']), rng.choice(['short', 'none', 'none0']), [1] * n, (), True, True)
 
 
 def run_shard(shard, tier, seed):
